@@ -87,6 +87,16 @@ func c06Run(timeout time.Duration, f func() (bool, error)) c06Verdict {
 	case v := <-ch:
 		return v
 	case <-time.After(timeout):
+	}
+	// grace period for a starved goroutine on a loaded machine (see SafeT in fw.go): the same call, not a re-execution
+	grace := 9 * timeout
+	if timeout+grace < 60*time.Second {
+		grace = 60*time.Second - timeout
+	}
+	select {
+	case v := <-ch:
+		return v
+	case <-time.After(grace):
 		atomic.AddInt64(&c06Leaked, 1)
 		return c06Verdict{Out: "TIMEOUT"}
 	}
